@@ -73,7 +73,7 @@ Trace* T = nullptr;            // trace of the current child (child side) / work
 bool in_child = false;
 int window_on = 0;
 uint32_t g_maxpts = 20000;
-int g_exec_timeout = 20;
+int g_exec_timeout = 12;
 std::string g_builddir = "/verif/build/tmp";
 std::string g_replaydir = "/verif/replays";
 Shared* S = nullptr;
@@ -344,7 +344,7 @@ Outcome run_child1(Trace* t, const std::vector<Pt>& prefix, bool verbose, bool p
 Outcome run_child(Trace* t, const std::vector<Pt>& prefix, bool verbose, bool passthrough, bool fresh = false) {
     Outcome o = run_child1(t, prefix, verbose, passthrough, fresh);
     if (o.status == ST_VIOLATION && o.sig == "timeout") {
-        int saved = g_exec_timeout; g_exec_timeout = saved * 6;
+        int saved = g_exec_timeout; g_exec_timeout = saved * 3;
         o = run_child1(t, prefix, verbose, passthrough, true);
         g_exec_timeout = saved;
     }
@@ -721,7 +721,7 @@ extern "C" int pmc_main(int argc, char** argv) {
     }
     setvbuf(stdout, nullptr, _IOLBF, 0);
     g_maxpts = atoi(argval("--maxpts", "20000"));
-    g_exec_timeout = atoi(argval("--exec-timeout", "20"));
+    g_exec_timeout = atoi(argval("--exec-timeout", "12"));
     if (argflag("--fresh")) g_reuse = false;
     g_selfcheck = atoi(argval("--selfcheck", "1009"));
     g_builddir = argval("--builddir", "/verif/build/tmp");
